@@ -25,6 +25,8 @@ import (
 	"net/url"
 	"sort"
 	"strings"
+
+	"github.com/go-openapi/swag"
 )
 
 // ---- templates ----
@@ -528,6 +530,41 @@ func (e expect) String() string {
 	return "no handler runs, 405 Allow=" + strings.Join(e.allow, ",")
 }
 
+// goNameCollision is the model of a known defect of the dependency go-openapi/analysis
+// (Spec.ParamsFor keys the parameters of an operation by swag.ToGoName(name), so two path
+// parameters such as "id" and "ID" or "pet-id" and "pet_id" become ONE entry and only one of
+// them is bound): the right handler ran, the matched route carries every binding, every value
+// the handler received is right, and each missing name shares its Go name with a name that was
+// received.
+func goNameCollision(o observed, e expect) bool {
+	if len(o.Runs) != 1 {
+		return false
+	}
+	want, ok := e.runs[o.Runs[0].Op]
+	if !ok || len(o.Runs[0].Params) >= len(want) || len(o.MRParams) != len(want) {
+		return false
+	}
+	for _, kv := range o.MRParams {
+		if v, ok := want[kv[0]]; !ok || v != kv[1] {
+			return false
+		}
+	}
+	got := map[string]bool{}
+	for k, v := range o.Runs[0].Params {
+		w, ok := want[k]
+		if s, isStr := v.(string); !ok || !isStr || s != w {
+			return false
+		}
+		got[swag.ToGoName(k)] = true
+	}
+	for k := range want {
+		if _, received := o.Runs[0].Params[k]; !received && !got[swag.ToGoName(k)] {
+			return false
+		}
+	}
+	return true
+}
+
 // judge decides one observation. Returns class ("" = satisfied), text, and whether the case was determined.
 func judge(routes []route, method, esc string, o observed) (class, what string, determined bool) {
 	up := strings.ToUpper(method)
@@ -562,6 +599,9 @@ func judge(routes []route, method, esc string, o observed) (class, what string, 
 	what = fmt.Sprintf("observed: %s; the text demands: %s", o, first)
 	if symptom == "panic" {
 		return symptom, what, true
+	}
+	if symptom == "wrong-params" && goNameCollision(o, first) {
+		return symptom + "/placeholder-names-with-one-go-name", what, true
 	}
 	// attribute to a known defect only if the defect's own model predicts exactly this observation
 	models := []struct {
